@@ -199,6 +199,27 @@ META = {
     "C18-semaphore-create-handle-key-check-dropped": ("C18", "the argument check of pp_semaphore_create_handle removed; needs the key derivation's allocation to fail - sem_open (NULL)"),
     "C19-poll-restart-count-bounded": ("C19", "the poll EINTR retry gives up after 16 restarts; needs 17 handled signals during one blocking wait"),
     "C20-sem-created-from-flag-bits": ("C20", "sem_created = open_flags & O_CREAT (64, not TRUE) while the clean-up unlinks only for == TRUE; needs CREATE on an existing name, then free without take_ownership - the name stays"),
+    # ---- round 10 ----
+    "C01-mutex-new-recursive-attribute": ("C01", "p_mutex_new creates a recursive native mutex; needs a trylock or lock by the thread that already holds the object"),
+    "C02-general-writer-deregisters-on-every-wakeup": ("C02", "general model writer_lock decrements the waiting-writer count inside its wait loop; needs a writer woken while the lock is still busy - it sleeps again unregistered and is never signalled"),
+    "C03-signal-skipped-by-clamped-waiter-count": ("C03", "a waiter counter that broadcast resets and wait decrements with a clamp makes signal return early when it reads 0; needs a broadcast after which two waiters wait again, then signals"),
+    "C04-c11-cas-equal-values-shortcut": ("C04", "c11 int compare-and-exchange returns TRUE at once when oldval == newval; needs such a call on a word holding another value"),
+    "C05-local-free-deletes-native-key": ("C05", "p_uthread_local_free deletes the native key; needs a thread still holding a value under the key when the reference is freed - its notifier never runs"),
+    "C06-sysv-key-file-created-without-excl": ("C06", "System V key file opened without O_EXCL: every opener believes it created the file; needs a joiner freed while the creator lives, then a third opener - a second counter"),
+    "C07-follower-truncates-existing-segment": ("C07", "an opener of an existing segment with a non-zero size takes the creator's ftruncate branch; needs a second handle with a smaller size - the creator's tail pages vanish"),
+    "C08-ring-last-slot-behind-the-segment": ("C08", "the segment is created one byte smaller and the modulus compensates with + 1: the ring's last slot lies behind the mapping; needs header + capacity a multiple of the page size"),
+    "C09-new-from-fd-keeps-blocking-mode": ("C09", "p_socket_new_from_fd no longer switches the descriptor to non-blocking (again); needs an accepted socket used non-blocking or with a timeout"),
+    "C10-close-keeps-listening-flag": ("C10", "p_socket_close no longer clears the listening flag; needs listen, close, set_listen_backlog - the setter is refused and the getter is stale"),
+    "C11-sha3-update-fill-level-kept": ("C11", "SHA-3 update drops `left = 0` after completing the partial block; needs a split update that completes a block and leaves a remainder"),
+    "C12-lookup-goes-left-only-on-minus-one": ("C12", "p_tree_lookup descends left only for a comparator result of exactly -1; needs a comparator returning other negative values (strcmp, a - b)"),
+    "C13-rb-root-removal-skips-repaint": ("C13", "RB remove of a root with one child no longer paints the promoted child black; needs the tree shrunk to two pairs, the root removed, then an insert"),
+    "C14-avl-replace-stores-before-notifying": ("C14", "AVL replace stores the new pair before calling the notifiers, which then receive the new pair; needs a replace with distinct objects"),
+    "C15-lookup-by-value-identity-shortcut": ("C15", "lookup_by_value lists a value identical to the argument without asking the predicate; needs a predicate that rejects identical values"),
+    "C16-plain-pattern-without-blank-after-equals": ("C16", "the plain pattern loses the blank after `=`: `key = ; comment` now matches with a blank value that trims to empty; needs an empty value followed by blanks and a comment"),
+    "C17-from-native-one-byte-buffer": ("C17", "from_native only rejects length 0 before reading the 2-byte family; needs a 1-byte buffer whose next byte is unreadable"),
+    "C18-dir-handle-stored-after-copies-again": ("C18", "p_dir_new stores the DIR handle after the path copies; needs one of those allocations to fail - the stream leaks"),
+    "C19-sem-open-retry-solaris-only": ("C19", "the first sem_open EINTR retry compiled only on Solaris; needs EINTR on the exclusive sem_open"),
+    "C20-shutdown-relies-on-tls-destructor": ("C20", "p_uthread_shutdown wipes the TLS slot without unref, counting on the destructor; needs an adopted thread (main) calling p_uthread_current then shutdown"),
 }
 
 
